@@ -60,6 +60,18 @@ func c28LMsigMsg(addr basics.Address, prog []byte) []byte {
 	return append(m, prog...)
 }
 
+func c28PQProgMsg(addr basics.Address, prog []byte) []byte {
+	m := append([]byte("PQProgram"), addr[:]...)
+	return append(m, prog...)
+}
+
+// address of a post-quantum key: H("PQA" || scheme || salt || public key)
+func c28PQAddr(scheme protocol.PQScheme, salt basics.PQAddressSalt, pk []byte) basics.Address {
+	b := append([]byte("PQA"), scheme[:]...)
+	b = append(b, byte(salt))
+	return basics.Address(crypto.Hash(append(b, pk...)))
+}
+
 func c28ProgAddr(prog []byte) basics.Address { return basics.Address(crypto.Hash(c28ProgMsg(prog))) }
 
 func c28MsigAddr(version, threshold uint8, pks []crypto.PublicKey) basics.Address {
@@ -90,7 +102,29 @@ type c28Prov struct {
 // c28ProgModel: verdict of a known program for a member of a group (true = approves).
 type c28ProgModel func(stx *transactions.SignedTxn, gi, gsize int) bool
 
+// three Falcon-1024 key pairs from fixed seeds (key generation is slow; deterministic)
+var c28PQOnce sync.Once
+var c28PQSigners []crypto.FalconSigner
+
+func c28PQKeys() []crypto.FalconSigner {
+	c28PQOnce.Do(func() {
+		for i := 0; i < 3; i++ {
+			s, err := crypto.GenerateFalconSigner(crypto.FalconSeed{0xc2, 0x08, byte(i)})
+			if err != nil {
+				panic(fmt.Sprintf("falcon keygen: %v", err))
+			}
+			c28PQSigners = append(c28PQSigners, s)
+		}
+	})
+	return c28PQSigners
+}
+
+type c28PQProv struct {
+	pk, msg string
+}
+
 type c28World struct {
+	pqProv   map[string]c28PQProv
 	cv       protocol.ConsensusVersion
 	proto    config.ConsensusParams
 	keys     []*crypto.SignatureSecrets
@@ -112,6 +146,21 @@ func (w *c28World) sign(k int, msg []byte) crypto.Signature {
 func (w *c28World) ideal(pk crypto.PublicKey, msg []byte, sig crypto.Signature) bool {
 	p, ok := w.prov[sig]
 	return ok && p.pk == pk && p.msg == string(msg)
+}
+
+func (w *c28World) pqSign(k int, msg []byte) []byte {
+	signer := c28PQKeys()[k]
+	sig, err := signer.SignBytes(msg)
+	if err != nil {
+		panic(fmt.Sprintf("falcon sign: %v", err))
+	}
+	w.pqProv[string(sig)] = c28PQProv{pk: string(signer.PublicKey[:]), msg: string(msg)}
+	return append([]byte{}, sig...)
+}
+
+func (w *c28World) pqIdeal(pk, msg, sig []byte) bool {
+	p, ok := w.pqProv[string(sig)]
+	return ok && p.pk == string(pk) && p.msg == string(msg)
 }
 
 var c28AsmCache sync.Map
@@ -255,7 +304,9 @@ func c28SomeArgs(t *rapid.T) [][]byte {
 // ---------- authorization recipes ----------
 
 type c28Auth struct {
-	kind      string // sig | msig | lsig-contract | lsig-sig | lsig-msig
+	kind      string // sig | msig | lsig-contract | lsig-sig | lsig-msig | pq | lsig-pq
+	pqKey     int
+	pqSalt    basics.PQAddressSalt
 	key       int    // sig, lsig-sig
 	mkeys     []int  // msig slots (indices into the key pool)
 	thr       uint8
@@ -283,9 +334,17 @@ func (a *c28Auth) authorizer(w *c28World) basics.Address {
 		return w.addr(a.key)
 	case "msig", "lsig-msig":
 		return c28MsigAddr(1, a.thr, a.pks(w))
+	case "pq", "lsig-pq":
+		pk := c28PQKeys()[a.pqKey].PublicKey
+		return c28PQAddr(protocol.PQSchemeFalcon1024, a.pqSalt, pk[:])
 	default:
 		return c28ProgAddr(a.prog)
 	}
+}
+
+func (a *c28Auth) makePQ(w *c28World, msg []byte) transactions.PQSig {
+	pk := c28PQKeys()[a.pqKey].PublicKey
+	return transactions.PQSig{Scheme: protocol.PQSchemeFalcon1024, Salt: a.pqSalt, PublicKey: append([]byte{}, pk[:]...), Signature: w.pqSign(a.pqKey, msg)}
 }
 
 func (a *c28Auth) signedCount() int {
@@ -312,8 +371,10 @@ func (a *c28Auth) makeMsig(w *c28World, msg []byte) crypto.MultisigSig {
 // resign (re)creates the authorization of stx from the recipe, over the current transaction bytes and for the
 // current claimed authorizer.
 func (a *c28Auth) resign(w *c28World, stx *transactions.SignedTxn) {
-	stx.Sig, stx.Msig, stx.Lsig = crypto.Signature{}, crypto.MultisigSig{}, transactions.LogicSig{}
+	stx.Sig, stx.Msig, stx.Lsig, stx.PQsig = crypto.Signature{}, crypto.MultisigSig{}, transactions.LogicSig{}, transactions.PQSig{}
 	switch a.kind {
+	case "pq":
+		stx.PQsig = a.makePQ(w, c28TxMsg(&stx.Txn))
 	case "sig":
 		stx.Sig = w.sign(a.key, c28TxMsg(&stx.Txn))
 	case "msig":
@@ -326,6 +387,8 @@ func (a *c28Auth) resign(w *c28World, stx *transactions.SignedTxn) {
 		switch a.kind {
 		case "lsig-sig":
 			stx.Lsig.Sig = w.sign(a.key, c28ProgMsg(a.prog))
+		case "lsig-pq":
+			stx.Lsig.PQsig = a.makePQ(w, c28PQProgMsg(stx.Authorizer(), a.prog))
 		case "lsig-msig":
 			if a.lmsig {
 				stx.Lsig.LMsig = a.makeMsig(w, c28LMsigMsg(stx.Authorizer(), a.prog))
@@ -428,6 +491,26 @@ func c28PQBlank(p transactions.PQSig) bool {
 	return p.Scheme == zs && p.Salt == zt && len(p.PublicKey) == 0 && len(p.Signature) == 0
 }
 
+// pqOK: a post-quantum envelope authorizes msg for address a.
+func (w *c28World) pqOK(p transactions.PQSig, msg []byte, a basics.Address) (bool, string) {
+	if p.Scheme != protocol.PQSchemeFalcon1024 {
+		return false, "pq-unknown-scheme"
+	}
+	if !w.proto.EnablePQSchemeFalcon1024 {
+		return false, "pq-scheme-not-enabled"
+	}
+	if c28PQAddr(p.Scheme, p.Salt, p.PublicKey) != a {
+		return false, "pq-address"
+	}
+	if len(p.Signature) == 0 {
+		return false, "pq-empty-signature"
+	}
+	if !w.pqIdeal(p.PublicKey, msg, p.Signature) {
+		return false, "pq-bad-signature"
+	}
+	return true, ""
+}
+
 func (w *c28World) msigOK(msg []byte, a basics.Address, ms crypto.MultisigSig) (bool, string) {
 	if len(ms.Subsigs) == 0 || ms.Subsigs[0] == (crypto.MultisigSubsig{}) {
 		return false, "msig-empty"
@@ -471,16 +554,14 @@ func (w *c28World) msigOK(msg []byte, a basics.Address, ms crypto.MultisigSig) (
 // for (only reachable if an unknown program were validly authorized; excluded and counted).
 func (w *c28World) expectMember(g []transactions.SignedTxn, gi int) (bool, string, bool) {
 	s := &g[gi]
-	if !c28PQBlank(s.PQsig) || !c28PQBlank(s.Lsig.PQsig) {
-		// the harness only ever plants junk post-quantum envelopes: not enabled => rejected on presence;
-		// enabled => one more authorization kind / delegation whose derived address is not the authorizer
-		return false, "pq-junk", false
+	if !w.proto.PQSigEnabled() && (!c28PQBlank(s.PQsig) || !c28PQBlank(s.Lsig.PQsig)) {
+		return false, "pq-not-enabled", false
 	}
 	if w.proto.EnforceAuthAddrSenderDiff && !s.AuthAddr.IsZero() && s.AuthAddr == s.Txn.Sender {
 		return false, "authaddr-equals-sender", false
 	}
 	lsigBlank := len(s.Lsig.Logic) == 0 && len(s.Lsig.Args) == 0 && s.Lsig.Sig == (crypto.Signature{}) &&
-		c28MsigBlank(s.Lsig.Msig) && c28MsigBlank(s.Lsig.LMsig)
+		c28MsigBlank(s.Lsig.Msig) && c28MsigBlank(s.Lsig.LMsig) && c28PQBlank(s.Lsig.PQsig)
 	hasProg := len(s.Lsig.Logic) != 0
 	if !hasProg && !lsigBlank && w.proto.TxnSizePricingEnabled() {
 		return false, "orphan-lsig-content", false
@@ -493,6 +574,9 @@ func (w *c28World) expectMember(g []transactions.SignedTxn, gi int) (bool, strin
 		kinds++
 	}
 	if hasProg {
+		kinds++
+	}
+	if !c28PQBlank(s.PQsig) {
 		kinds++
 	}
 	if kinds == 0 {
@@ -511,6 +595,9 @@ func (w *c28World) expectMember(g []transactions.SignedTxn, gi int) (bool, strin
 	case !c28MsigBlank(s.Msig):
 		ok, why := w.msigOK(c28TxMsg(&s.Txn), a, s.Msig)
 		return ok, why, false
+	case !c28PQBlank(s.PQsig):
+		ok, why := w.pqOK(s.PQsig, c28TxMsg(&s.Txn), a)
+		return ok, why, false
 	}
 	// logic signature
 	nd := 0
@@ -523,12 +610,19 @@ func (w *c28World) expectMember(g []transactions.SignedTxn, gi int) (bool, strin
 	if !c28MsigBlank(s.Lsig.LMsig) {
 		nd++
 	}
+	if !c28PQBlank(s.Lsig.PQsig) {
+		nd++
+	}
 	switch {
 	case nd > 1:
 		return false, "lsig-two-delegations", false
 	case nd == 0:
 		if c28ProgAddr(s.Lsig.Logic) != a {
 			return false, "lsig-not-contract-address", false
+		}
+	case !c28PQBlank(s.Lsig.PQsig):
+		if ok, why := w.pqOK(s.Lsig.PQsig, c28PQProgMsg(a, s.Lsig.Logic), a); !ok {
+			return false, "lsig-" + why, false
 		}
 	case s.Lsig.Sig != (crypto.Signature{}):
 		if !w.ideal(crypto.PublicKey(a), c28ProgMsg(s.Lsig.Logic), s.Lsig.Sig) {
@@ -621,6 +715,12 @@ func c28CloneStx(s transactions.SignedTxn) transactions.SignedTxn {
 			out.Lsig.Args[i] = append([]byte{}, a...)
 		}
 	}
+	if s.Lsig.PQsig.PublicKey != nil {
+		out.Lsig.PQsig.PublicKey = append([]byte{}, s.Lsig.PQsig.PublicKey...)
+	}
+	if s.Lsig.PQsig.Signature != nil {
+		out.Lsig.PQsig.Signature = append([]byte{}, s.Lsig.PQsig.Signature...)
+	}
 	if s.PQsig.PublicKey != nil {
 		out.PQsig.PublicKey = append([]byte{}, s.PQsig.PublicKey...)
 	}
@@ -669,6 +769,8 @@ func c28KindOf(s *transactions.SignedTxn) string {
 	}
 	if len(s.Lsig.Logic) != 0 {
 		switch {
+		case !c28PQBlank(s.Lsig.PQsig):
+			k = append(k, "lsig-pq")
 		case s.Lsig.Sig != (crypto.Signature{}):
 			k = append(k, "lsig-sig")
 		case !c28MsigBlank(s.Lsig.LMsig):
@@ -852,10 +954,16 @@ func c28AddKind(t *rapid.T, c *c28Case, m int) string {
 	if len(s.Lsig.Logic) == 0 {
 		opts = append(opts, "lsig")
 	}
+	if c28PQBlank(s.PQsig) && (a.kind == "lsig-pq" || rapid.IntRange(0, 3).Draw(t, "addPQ") == 0) {
+		opts = append(opts, "pq")
+	}
 	if len(opts) == 0 {
 		return ""
 	}
 	switch k := rapid.SampledFrom(opts).Draw(t, "addKind"); k {
+	case "pq":
+		b := c28Auth{kind: "pq", pqKey: a.pqKey, pqSalt: a.pqSalt} // for lsig-pq members: valid for the very same authorizer
+		s.PQsig = b.makePQ(w, c28TxMsg(&s.Txn))
 	case "sig":
 		key := rapid.IntRange(0, c28NKeys-1).Draw(t, "addSigKey")
 		if a.kind == "lsig-sig" {
@@ -879,6 +987,8 @@ func c28AddKind(t *rapid.T, c *c28Case, m int) string {
 		prog := w.prog("int1", "int 1", func(*transactions.SignedTxn, int, int) bool { return true })
 		s.Lsig = transactions.LogicSig{Logic: append([]byte{}, prog...)}
 		switch a.kind {
+		case "pq":
+			s.Lsig.PQsig = a.makePQ(w, c28PQProgMsg(s.Authorizer(), prog)) // a valid delegation by the very same authorizer
 		case "sig":
 			s.Lsig.Sig = w.sign(a.key, c28ProgMsg(prog)) // a valid delegation by the very same authorizer
 		case "msig":
@@ -901,7 +1011,7 @@ func c28MsigPreimage(t *rapid.T, c *c28Case, m int) string {
 	}
 	n := len(ms.Subsigs)
 	label := ""
-	opts := []string{"thr", "thr", "ver", "key", "append-dup", "copy-slot"}
+	opts := []string{"thr", "thr", "ver", "ver", "key", "append-dup", "copy-slot"}
 	if n >= 2 {
 		opts = append(opts, "swap", "swap-keys", "drop-slot", "copy-sig")
 	}
@@ -991,10 +1101,40 @@ func c28WireFlip(t *rapid.T, c *c28Case, m int) string {
 		if bytes.Equal(protocol.Encode(&out), enc) {
 			continue
 		}
+		if !c28PQSigFlipClear(c.g[m].PQsig.Signature, out.PQsig.Signature) || !c28PQSigFlipClear(c.g[m].Lsig.PQsig.Signature, out.Lsig.PQsig.Signature) {
+			return "excluded:pq-signature-body-flip"
+		}
 		c.g[m] = out
 		return "wire-flip"
 	}
 	return ""
+}
+
+// c28PQSigFlipClear: is the verdict of a changed Falcon signature clear from the documentation? Unchanged, or
+// changed in the header byte / salt version byte (both are checked / hashed) or in length: yes. A changed bit
+// inside the compressed s2 body is invalid only "with overwhelming probability" (no strong-unforgeability
+// statement): excluded and counted.
+func c28PQSigFlipClear(old, new []byte) bool {
+	if bytes.Equal(old, new) || len(old) != len(new) {
+		return true
+	}
+	for i := range old {
+		if old[i] != new[i] && i > 1 {
+			return false
+		}
+	}
+	return true
+}
+
+// c28PQOf: the post-quantum envelope in use by a member, nil if none
+func c28PQOf(s *transactions.SignedTxn) *transactions.PQSig {
+	switch {
+	case !c28PQBlank(s.PQsig):
+		return &s.PQsig
+	case !c28PQBlank(s.Lsig.PQsig):
+		return &s.Lsig.PQsig
+	}
+	return nil
 }
 
 // c28Mutate applies one mutation to member m; returns its label ("" = not applicable, nothing changed).
@@ -1011,7 +1151,41 @@ func c28Mutate(t *rapid.T, c *c28Case, m int) string {
 	if len(s.Lsig.Logic) > 0 {
 		opts = append(opts, "flip-prog", "swap-prog", "args", "args")
 	}
+	if pq := c28PQOf(s); pq != nil && len(pq.Signature) > 2 && len(pq.PublicKey) > 0 {
+		opts = append(opts, "pq-envelope", "pq-envelope", "pq-envelope", "pq-envelope")
+	}
 	switch op := rapid.SampledFrom(opts).Draw(t, "mutation"); op {
+	case "pq-envelope":
+		pq := c28PQOf(s)
+		switch rapid.SampledFrom([]string{"sig-head", "pk", "salt", "scheme", "empty-sig", "truncate", "other-key"}).Draw(t, "pqOp") {
+		case "sig-head": // header byte or salt-version byte of the deterministic Falcon signature
+			pq.Signature[rapid.IntRange(0, 1).Draw(t, "pqSigPos")] ^= byte(rapid.IntRange(1, 255).Draw(t, "pqSigXor"))
+			return "pq-flip-sig-head"
+		case "pk":
+			c28FlipBytes(t, pq.PublicKey, "pqPk")
+			return "pq-flip-pk"
+		case "salt":
+			pq.Salt++
+			return "pq-salt"
+		case "scheme":
+			pq.Scheme[rapid.IntRange(0, len(pq.Scheme)-1).Draw(t, "pqSchemePos")] ^= 0x01
+			return "pq-scheme"
+		case "empty-sig":
+			pq.Signature = nil
+			return "pq-empty-sig"
+		case "truncate":
+			pq.Signature = pq.Signature[:len(pq.Signature)-1]
+			return "pq-truncate-sig"
+		default:
+			// another key's public key, with or without the claimed authorizer following it
+			o := c28PQKeys()[rapid.IntRange(0, 2).Draw(t, "pqOtherKey")].PublicKey
+			pq.PublicKey = append([]byte{}, o[:]...)
+			if rapid.Bool().Draw(t, "pqFollow") {
+				s.AuthAddr = c28PQAddr(pq.Scheme, pq.Salt, pq.PublicKey)
+				return "pq-other-key+follow-authaddr"
+			}
+			return "pq-other-key"
+		}
 	case "field":
 		return c28FieldChange(t, c, m)
 	case "add-kind":
@@ -1026,13 +1200,14 @@ func c28Mutate(t *rapid.T, c *c28Case, m int) string {
 			s.Sig, x.Sig = x.Sig, s.Sig
 			s.Msig, x.Msig = x.Msig, s.Msig
 			s.Lsig, x.Lsig = x.Lsig, s.Lsig
+			s.PQsig, x.PQsig = x.PQsig, s.PQsig
 			return "move-auth:swap"
 		}
 		// take the authorization of a sibling transaction (same recipe, different note)
 		tmp := c28CloneStx(*s)
 		tmp.Txn.Note = append(append([]byte{}, tmp.Txn.Note...), 0x5a)
 		a.resign(w, &tmp)
-		s.Sig, s.Msig, s.Lsig = tmp.Sig, tmp.Msig, tmp.Lsig
+		s.Sig, s.Msig, s.Lsig, s.PQsig = tmp.Sig, tmp.Msig, tmp.Lsig, tmp.PQsig
 		return "move-auth:sibling"
 	case "authaddr":
 		switch rapid.SampledFrom([]string{"sender", "sender", "clear", "third"}).Draw(t, "authaddrOp") {
@@ -1178,14 +1353,14 @@ type c28Sample struct {
 
 func TestVerif_C28_Verify(t *testing.T) {
 	vk := vkBegin(t, "C28")
-	vk.Rule("groups of 1..4 signed transactions (pay/axfer/keyreg/appl) authorized by sig / v1 msig (1..5 slots from 8 real keys, repeats, thr 1..n, signed subsets around thr) / lsig (contract, key-delegated, msig-delegated via Msig or LMsig; approving/rejecting/erroring programs with args), optionally rekeyed (AuthAddr), under v40/v41/v42/future, then 0..2 mutations; oracle = reference verifier over an ideal signature scheme (provenance of every signature the harness made); non-trivial = mutated, or a msig signed by thr-1/thr/thr+1 slots, or a rekeyed sender; distinct by encoded group + protocol")
-	vk.Assume("ed25519 signatures made by the harness verify, and no other 64 bytes verify for the generated keys and messages (ideal signature scheme); SHA-512/256 collision freedom; msgpack encoding (protocol.Encode) is canonical; Transaction.WellFormed is used as a precondition filter only")
+	vk.Rule("groups of 1..4 signed transactions (pay/axfer/keyreg/appl) authorized by sig / v1 msig (1..5 slots from 8 real keys, repeats, thr 1..n, signed subsets around thr) / lsig (contract, key-delegated, msig-delegated via Msig or LMsig, Falcon-delegated; approving/rejecting/erroring programs with args) / Falcon-1024 post-quantum signature, optionally rekeyed (AuthAddr), under v40/v41/v42/future, then 0..2 mutations; oracle = reference verifier over an ideal signature scheme (provenance of every signature the harness made); non-trivial = mutated, or a msig signed by thr-1/thr/thr+1 slots, or a rekeyed sender; distinct by encoded group + protocol")
+	vk.Assume("ed25519 / deterministic Falcon-1024 signatures made by the harness verify, and no other bytes verify for the generated keys and messages (ideal signature scheme; changed bits inside the compressed body of a Falcon signature are excluded and counted); SHA-512/256 collision freedom; msgpack encoding (protocol.Encode) is canonical; Transaction.WellFormed is used as a precondition filter only")
 	pool := execpool.MakeBacklog(nil, 0, execpool.LowPriority, t)
 	defer pool.Shutdown()
 	versions := []protocol.ConsensusVersion{protocol.ConsensusV40, protocol.ConsensusV41, protocol.ConsensusV42, protocol.ConsensusV42, protocol.ConsensusV42, protocol.ConsensusFuture}
 
 	rapid.Check(t, func(t *rapid.T) {
-		w := &c28World{prov: map[crypto.Signature]c28Prov{}, progs: map[string]c28ProgModel{}, progName: map[string]string{}}
+		w := &c28World{pqProv: map[string]c28PQProv{}, prov: map[crypto.Signature]c28Prov{}, progs: map[string]c28ProgModel{}, progName: map[string]string{}}
 		w.cv = rapid.SampledFrom(versions).Draw(t, "proto")
 		w.proto = config.Consensus[w.cv]
 		crypto.SetEd25519BatchVerifier(rapid.Bool().Draw(t, "ed25519ConsensusBatch"))
@@ -1204,8 +1379,17 @@ func TestVerif_C28_Verify(t *testing.T) {
 		for i := 0; i < n; i++ {
 			tx := c28Body(t, w)
 			a := &c28Auth{}
-			a.kind = rapid.SampledFrom([]string{"sig", "sig", "msig", "msig", "msig", "lsig-contract", "lsig-sig", "lsig-msig"}).Draw(t, "authKind")
+			kindPool := []string{"sig", "sig", "sig", "msig", "msig", "msig", "msig", "lsig-contract", "lsig-contract", "lsig-sig", "lsig-sig", "lsig-msig", "lsig-msig"}
+			if w.proto.PQSigEnabled() {
+				kindPool = append(kindPool, "pq", "lsig-pq")
+			} else {
+				kindPool = append(kindPool, rapid.SampledFrom([]string{"sig", "msig", "pq", "lsig-pq"}).Draw(t, "oldProtoPQ"))
+			}
+			a.kind = rapid.SampledFrom(kindPool).Draw(t, "authKind")
 			switch a.kind {
+			case "pq", "lsig-pq":
+				a.pqKey = rapid.IntRange(0, 2).Draw(t, "pqKey")
+				a.pqSalt = basics.PQAddressSalt(rapid.IntRange(0, 3).Draw(t, "pqSalt"))
 			case "sig", "lsig-sig":
 				a.key = rapid.IntRange(0, c28NKeys-1).Draw(t, "key")
 			case "msig", "lsig-msig":
@@ -1264,7 +1448,9 @@ func TestVerif_C28_Verify(t *testing.T) {
 			if k == 0 {
 				target = m
 			}
-			if l := c28Mutate(t, c, m); l != "" {
+			if l := c28Mutate(t, c, m); strings.HasPrefix(l, "excluded:") {
+				vk.Excluded(strings.TrimPrefix(l, "excluded:"))
+			} else if l != "" {
 				muts = append(muts, l)
 			} else {
 				vk.Label("mutation-not-applicable")
